@@ -70,6 +70,13 @@ Make(g, a) ==
          IN Ok(Fresh(a.fam, a.rule, a.order, a.dims, a.outs, P, IF a.fam \in {"global", "fourier"} THEN T ELSE {}, a.ll, a.alpha, a.beta))
 
 -----------------------------------------------------------------------------
+\* selections the exact specification decides: everything except hyperbolic contours with unequal weights
+\* (their exponents w_j / min w are not integers) and curved contours that are not provably lower
+\* (negative curved weights produced by the anisotropy estimate: the region is grown, not enumerated)
+Decidable(type, aw) ==
+    /\ ~(type \in HyperbolicTypes /\ aw # <<>> /\ \E j \in 1..Len(aw) : aw[j] # aw[1])
+    /\ ~(type \in CurvedTypes /\ aw # <<>> /\ \E j \in 1..(Len(aw) \div 2) : aw[j] + aw[j + Len(aw) \div 2] < 0)
+
 CommitTensors(g) == IF UsesTensors(g) /\ g.upd # {} THEN [g EXCEPT !.tens = g.upd, !.upd = {}] ELSE g
 
 \* loadNeededValues with token values of the given epoch (vector overload: sizes are right by construction)
@@ -107,14 +114,23 @@ Update(g, a) ==
     ELSE IF ~ValidWeights(a.type, a.aw, g.dims) THEN Inv(g)
     ELSE IF ~ValidLimits(a.ll, g.dims) THEN Inv(g)
     ELSE LET g1 == IF a.ll # <<>> THEN [g EXCEPT !.lim = a.ll] ELSE g       \* limits persist when none are passed
-         IN IF IsLocal(g) THEN Run(g1) ELSE Ok(UpdateCore(g1, a.depth, a.type, a.aw, g1.lim))
+         IN IF IsLocal(g) THEN Run(g1)
+            ELSE IF ~Decidable(a.type, a.aw) THEN [g |-> g1, r |-> "undecided"]
+            ELSE Ok(UpdateCore(g1, a.depth, a.type, a.aw, g1.lim))
 
 \* setAnisotropicRefinement: weights are an observation input (est); grow the level until min_growth new points
+\* the limits bound every direction and every index they admit is already present: nothing can be added (C08)
+LimitsBoxFull(g) ==
+    /\ g.lim # <<>> /\ \A j \in 1..g.dims : g.lim[j] >= 0
+    /\ LET have == IF UsesTensors(g) THEN (IF g.upd = {} THEN g.tens ELSE g.upd) ELSE g.pts \cup g.need
+       IN \A t \in BoxUpTo(g.dims, g.lim) : t \in have
+
 RECURSIVE AnisoGrow(_, _, _, _, _, _)
 AnisoGrow(g, type, w, mg, level, cap) ==
     LET g1 == UpdateCore(g, level, type, w, g.lim)
     IN IF Cardinality(g1.need) >= mg THEN g1
-       ELSE IF level >= cap THEN g1            \* limits saturated: the documented outcome is "returns with what is admissible"
+       ELSE IF LimitsBoxFull(g1) THEN g1       \* limits saturated: the call returns with what is admissible (possibly nothing)
+       ELSE IF level >= cap THEN [g1 EXCEPT !.fam = "undecided"]   \* extreme estimated weights: growth needs astronomically many levels
        ELSE AnisoGrow(g, type, w, mg, level + 1, cap)
 
 Saturated(g) == g.lim # <<>> /\ \A j \in 1..g.dims : g.lim[j] >= 0
@@ -130,7 +146,9 @@ Aniso(g, a) ==
     ELSE LET g1 == IF a.ll # <<>> THEN [g EXCEPT !.lim = a.ll] ELSE g
          IN IF IsLocal(g) THEN Run(g1)
             ELSE IF g.fam = "global" /\ g.rule \notin NestedGlobalRules THEN Run(g1)
-            ELSE Ok(AnisoGrow([g1 EXCEPT !.need = {}, !.upd = {}], a.type, a.est, a.min_growth, 1, 40))
+            ELSE IF ~Decidable(a.type, a.est) THEN [g |-> g1, r |-> "undecided"]
+            ELSE LET r == AnisoGrow([g1 EXCEPT !.need = {}, !.upd = {}], a.type, a.est, a.min_growth, 1, 24)
+                 IN IF r.fam = "undecided" THEN [g |-> g1, r |-> "undecided"] ELSE Ok(r)
 
 -----------------------------------------------------------------------------
 (* surplus refinement *)
@@ -143,8 +161,8 @@ SurpSequence(g, F) ==
     IN IF kids = {} THEN [g EXCEPT !.need = {}, !.upd = {}]
        ELSE [g EXCEPT !.need = LowerClosure(kids \cup g.pts, g.dims) \ g.pts, !.upd = {}]
 
-\* a: [output, ll, tol9, tolzero, ratios (aligned with the sorted loaded points), sorted (the loaded points as logged)]
-Flagged(a) == {a.sorted[i] : i \in {m \in 1..Len(a.sorted) : a.ratios[m] > a.tol9}}
+\* a: [output, ll, tolq, tolzero, ratios (aligned with the sorted loaded points), sorted (the loaded points as logged)]
+Flagged(a) == {a.sorted[i] : i \in {m \in 1..Len(a.sorted) : a.ratios[m] > a.tolq}}
 
 SurpGlobalSeq(g, a) ==
     IF ~IsEmpty(g) /\ g.con THEN Run(g)
@@ -155,8 +173,8 @@ SurpGlobalSeq(g, a) ==
     ELSE IF a.tolneg THEN Inv(g)
     ELSE IF ~ValidLimits(a.ll, g.dims) THEN Inv(g)
     ELSE LET g1 == IF a.ll # <<>> THEN [g EXCEPT !.lim = a.ll] ELSE g
-         IN IF g.fam = "sequence" THEN Ok(SurpSequence(g1, Flagged(a)))
-            ELSE IF g.fam = "global" /\ g.rule \in SeqRules \cup OddRules THEN [g |-> g1, r |-> "ok-observed"]   \* surpluses not observable: constrained, not computed
+         IN IF g.fam = "sequence" THEN (IF a.degenerate THEN [g |-> g1, r |-> "ok-observed"] ELSE Ok(SurpSequence(g1, Flagged(a))))
+            ELSE IF g.fam = "global" /\ g.rule \in SeqRules THEN [g |-> g1, r |-> "ok-observed"]   \* surpluses not observable: constrained, not computed
             ELSE Run(g1)
 
 \* local polynomial / wavelet, classic criterion: all directions of flagged points; kids not present, within limits
@@ -181,25 +199,34 @@ CompleteUp(g, base, S) ==
     LET add == (UNION {AllParents(g, p) : p \in S}) \ (base \cup S)
     IN IF add = {} THEN S ELSE CompleteUp(g, base, S \cup add)
 
+\* The vector overload (smode 0, 1) checks the vector sizes, stores the limits and then runs the ladder of the raw
+\* overload; the raw overload (smode 2) stores the limits after its ladder.
+SurpLocalLadder(g, a) ==
+    IF g.con THEN "runtime_error"
+    ELSE IF g.outs = 0 THEN "runtime_error"
+    ELSE IF g.pts = {} THEN "runtime_error"
+    ELSE IF a.output < -1 \/ a.output >= g.outs THEN "invalid_argument"
+    ELSE IF g.fam = "fourier" THEN "runtime_error"
+    ELSE IF a.tolneg THEN "invalid_argument"
+    ELSE "ok"
+
 SurpLocal(g, a) ==
-    IF ~IsEmpty(g) /\ g.con THEN Run(g)
-    ELSE IF IsEmpty(g) THEN Run(g)
-    ELSE IF g.outs = 0 THEN Run(g)
-    ELSE IF g.pts = {} THEN Run(g)
-    ELSE IF a.output < -1 \/ a.output >= g.outs THEN Inv(g)
-    ELSE IF g.fam = "fourier" THEN Run(g)
-    ELSE IF a.tolneg THEN Inv(g)
-    ELSE IF ~ValidLimits(a.ll, g.dims) THEN Inv(g)
+    IF IsEmpty(g) THEN Run(g)
+    ELSE IF a.smode # 2 /\ ~ValidLimits(a.ll, g.dims) THEN Inv(g)
+    ELSE IF a.smode # 2 /\ SurpLocalLadder(g, a) # "ok"
+         THEN [g |-> IF a.ll # <<>> THEN [g EXCEPT !.lim = a.ll] ELSE g, r |-> SurpLocalLadder(g, a)]
+    ELSE IF a.smode = 2 /\ SurpLocalLadder(g, a) # "ok" THEN [g |-> g, r |-> SurpLocalLadder(g, a)]
     ELSE LET g1 == IF a.ll # <<>> THEN [g EXCEPT !.lim = a.ll] ELSE g
              F  == IF a.tolzero THEN g.pts ELSE Flagged(a)
          IN IF IsLocal(g) THEN
-                IF a.crit = "classic" THEN Ok([g1 EXCEPT !.need = ClassicNeed(g1, F, g1.lim), !.upd = {}])
+                IF a.degenerate /\ ~a.tolzero THEN [g |-> g1, r |-> "ok-observed"]     \* all loaded values are zero: the normalised coefficient is 0/0
+                ELSE IF a.crit = "classic" THEN Ok([g1 EXCEPT !.need = ClassicNeed(g1, F, g1.lim), !.upd = {}])
                 ELSE IF a.crit = "parents" THEN Ok([g1 EXCEPT !.need = ParentsFirstNeed(g1, F, g1.lim), !.upd = {}])
                 ELSE IF a.crit = "stable" /\ a.tolzero
                      THEN LET n0 == ClassicNeed(g1, F, g1.lim) IN Ok([g1 EXCEPT !.need = CompleteUp(g1, g1.pts, n0), !.upd = {}])
                 ELSE [g |-> g1, r |-> "ok-observed"]        \* direction-selective criteria depend on 1-D surpluses: constrained only
-            ELSE IF g.fam = "sequence" THEN Ok(SurpSequence(g1, Flagged(a)))
-            ELSE IF g.fam = "global" /\ g.rule \in SeqRules \cup OddRules THEN [g |-> g1, r |-> "ok-observed"]
+            ELSE IF g.fam = "sequence" THEN (IF a.degenerate THEN [g |-> g1, r |-> "ok-observed"] ELSE Ok(SurpSequence(g1, Flagged(a))))
+            ELSE IF g.fam = "global" /\ g.rule \in SeqRules THEN [g |-> g1, r |-> "ok-observed"]
             ELSE Run(g1)
 
 -----------------------------------------------------------------------------
@@ -256,7 +283,10 @@ LoadC(g, a) ==
          IN Ok(Promote(g, D))
 
 \* candidates for Global / Sequence / Fourier: initial pool plus the exclusive children of the current lower set
-ExclusiveChildren(T, excl, ll) == {q \in UNION {Succs(t) : t \in T} : q \notin T /\ q \notin excl /\ Preds(q) \subseteq T /\ WithinLimits(q, ll)}
+\* a child t + e_j is admissible when direction j is unrestricted or the incremented entry obeys its limit
+\* (entries inherited from tensors accepted before the limits were set are not re-examined)
+ChildWithin(T, q, ll) == ll = <<>> \/ \E j \in 1..Len(q) : q[j] > 0 /\ Repl(q, j, q[j] - 1) \in T /\ (ll[j] = -1 \/ q[j] <= ll[j])
+ExclusiveChildren(T, excl, ll) == {q \in UNION {Succs(t) : t \in T} : q \notin T /\ q \notin excl /\ Preds(q) \subseteq T /\ ChildWithin(T, q, ll)}
 \* a: [ll]; result: the new grid state (limits stored, candidate tensors re-created) and the candidate point set
 CandGlobal(g, a) ==
     LET g1 == IF a.ll # <<>> THEN [g EXCEPT !.lim = a.ll] ELSE g
